@@ -101,6 +101,28 @@ Theorem C12_idempotent_after_one :
 Proof. exact idempotent_after_one. Qed.
 Print Assumptions C12_idempotent_after_one.
 
+(** Rounding to binary32 twice is rounding once, for EVERY rational (round-to-nearest-even, subnormals included; the domain
+    of [r32]: overflow is not modelled, values beyond the float32 range keep 24 significant bits).  [r32] is the function the
+    correspondence compares with torch's float32 cast on sampled, edge and exact-tie values on every run. *)
+From Leaspy Require Import Io.R32 Io.R32Proofs.
+Theorem C12_r32_idempotent : forall q : Q, r32 (r32 q) = r32 q.
+Proof. exact r32_idempotent. Qed.
+Print Assumptions C12_r32_idempotent.
+
+(** ... so [C12_idempotent_after_one] needs NO hypothesis on the cast when the cast is the executable float32 rounding:
+    every well-formed default-named model, whatever shapes / precision / mixing matrix it holds, is a fixed point of
+    save∘load after one round. *)
+Theorem C12_idempotent_after_one_r32 :
+  forall (derive : mkind -> Z -> Z -> list (string * tensor) -> tensor) (ver : string) (m : model),
+    wf m -> default_named m ->
+    exists dct m1, save ver m = Ok dct /\ load r32 derive dct = Ok m1 /\
+      exists dct1 m2, save ver m1 = Ok dct1 /\ load r32 derive dct1 = Ok m2 /\
+        save ver m2 = Ok dct1 /\ m_params m2 = m_params m1 /\ m_kind m2 = m_kind m /\ m_name m2 = m_name m /\
+        m_features m2 = m_features m /\ dimension m2 = dimension m /\ m_sdim m2 = m_sdim m /\ m_obs m2 = m_obs m /\
+        m_nclusters m2 = m_nclusters m /\ m_nb_events m2 = m_nb_events m /\ m_fit_metrics m2 = m_fit_metrics m.
+Proof. intros derive ver m W N. exact (idempotent_after_one r32 derive ver m W N (cast_idem_on_r32 m)). Qed.
+Print Assumptions C12_idempotent_after_one_r32.
+
 (** The unrestricted statements are false of the code (each witness is replayed on the implementation by the check). *)
 Theorem C12_instance_name_refuted :
   exists m, wf m /\ forall cast derive, exists d, save "2.0.2" m = Ok d /\ load cast derive d = Err ValueError.
